@@ -405,6 +405,30 @@ pub fn run(ctx: &Ctx) -> i32 {
             pc_subjects.push(a);
         }
     }
+    // rare configuration corners in the quick tier as well: no grinding + cap height 0 + MinSize
+    // schedule; narrow rows + 3 challenges + a commit-phase layer exactly as large as the cap
+    {
+        use plonky2::fri::reduction_strategies::FriReductionStrategy as S;
+        let mut c1 = floor_config(8);
+        c1.fri_config.proof_of_work_bits = 0;
+        c1.fri_config.cap_height = 0;
+        c1.fri_config.reduction_strategy = S::MinSize(None);
+        fix_security(&mut c1);
+        let (prog, ivs) = &progs[1];
+        if let Some(a) = make_accepted::<PC>(ctx, &format!("{}@pow0cap0minsize", prog.name), prog, &ivs[0], &c1, ctx.seed + 7) {
+            pc_subjects.push(a);
+        }
+        let mut c2 = floor_config(8);
+        c2.num_routed_wires = 37;
+        c2.num_challenges = 3;
+        c2.fri_config.cap_height = 3;
+        c2.fri_config.reduction_strategy = S::Fixed(vec![2, 1]); // 2^6 lde -> 2^4 -> 2^3 = cap size
+        fix_security(&mut c2);
+        let (prog, ivs) = &progs[0];
+        if let Some(a) = make_accepted::<PC>(ctx, &format!("{}@narrow37chal3capfull", prog.name), prog, &ivs[0], &c2, ctx.seed + 8) {
+            pc_subjects.push(a);
+        }
+    }
     // salted / blinded oracle
     {
         let mut zk = floor_config(8);
